@@ -129,6 +129,13 @@ def fault_hang_cases(tier, seed):
                        "faults": [{"match": {"op": "checkpoint", "n": k}, "err": err, "when": "before", "delay_ms": delay}],
                        "opts": dict({"hang_s": 3.0}, **c06.OPTS.get(sname, {}))}
                 i += 1
+    # the failing call is the fetch of a following page of a paginated checkpoint response
+    for sname in ("seq", "par-running", "map-suspended"):
+        for nth in range(1, 4 if tier == "quick" else 8):
+            yield {"label": "fault-hang-page-fetch|" + sname, "prog": {"body": c06.SHAPES[sname]}, "prog_seed": 21940 + i, "pattern": {"p": "plain"}, "max_inv": 10,
+                   "world": {"complete": {}, "timers": "all"}, "pages": {"resp_page": 1},
+                   "faults": [{"match": {"op": "get_state", "n_inv": None}, "err": c06.ERRS[nth % 2 * 5], "when": "before", "nth": nth}], "opts": {"hang_s": 3.0}}
+            i += 1
     # the same with the signalling thread descheduled right after each signal (a waiter woken by the failed batch runs ahead of the
     # checkpoint thread's remaining failure handling)
     for sname in ("seq", "par-running", "big-step"):
